@@ -68,6 +68,7 @@ def check(ctx):
                         ctx.ob("R18.3", f"{k}|flag-op|{meth}", meth in ("load",), body.loc(b), f"unexpected operation `{meth}` on the lock flag")
             # R18.4 exact guards
             check_guard(ctx, k, body, adt, "push" if k.endswith("push") else "pop")
+            check_data_path(ctx, k, body, adt, "push" if k.endswith("push") else "pop")
     ctx.floor("R18.1", 4); ctx.floor("R18.2", 4); ctx.floor("R18.4", 4)
     queues(ctx, eng)
 
@@ -121,6 +122,56 @@ def check_guard(ctx, key, body, adt, op):
             ctx.ob("R18.4", f"{key}|empty-guard", ok, body.loc(b), f"empty test is `head {opn} 0`; the empty arm must be exactly head == 0 and answer None")
     if not found:
         ctx.ob("R18.4", f"{key}|{'full' if op == 'push' else 'empty'}-guard", False, f"{body.f['file']}:{body.f['line']}", "no recognisable full/empty guard on `head`")
+
+def check_data_path(ctx, key, body, adt, op):
+    """R18.8 last in, first out: push stores its argument at buffer[head] and then advances head by one, answering true; pop hands out buffer[head - 1] -- read
+    before the decrement, or buffer[head] read after it -- moves head back by one, and answers Some of exactly that element"""
+    import dag as D_
+    from dag import strip_casts, show
+    dg = D_.Dag(body)
+    site = f"{body.f['file']}:{body.f['line']}"
+    head = ("mem", ("head",))
+    hw = [a for a in guards.accesses(body, adt, {"head"}) if a["kind"] == "w" and a["i"] != "T"]
+    idx = [(b, c) for (b, c) in body.calls if c.get("fname") in ("get_unchecked", "get_unchecked_mut", "index", "index_mut") and "buffer" in show(dg.expr(c["args"][0]))]
+    if len(hw) != 1 or len(idx) != 1:
+        ctx.ob("R18.8", f"{key}|one-slot-access-one-head-update", False, site, f"{len(idx)} buffer accesses, {len(hw)} writes of head; expected one each"); return
+    hb = hw[0]["b"]; ib = idx[0][0]
+    step = strip_casts(dg.rvalue((hb, hw[0]["i"], body.stmts(hb)[hw[0]["i"]][2]), 0))
+    i_e = strip_casts(idx[0][1]["args"][1] and dg.expr(idx[0][1]["args"][1]))
+    is_head = lambda e: strip_casts(e) == head
+    if op == "push":
+        ok_step = step[0] == "bin" and step[1].rstrip("!~") == "Add" and is_head(step[2]) and strip_casts(step[3]) == ("const", 1)
+        sts = [(b, c_, i_, rv) for (b, c_, i_, rv) in util.element_stores(body, dg) if "buffer" in show(c_)]
+        ok_store = len(sts) == 1 and is_head(sts[0][2]) and rv_is_param(body, dg, sts[0][3], 2)
+        ok_order = ok_store and (body.dominates(sts[0][0], hb) and sts[0][0] != hb)
+        ok_ans = ok_store and returns_const(body, sts[0][0], "bool", 1)
+        ctx.ob("R18.8", f"{key}|stores-the-argument-at-head-then-advances", ok_step and ok_store and ok_order, body.loc(ib),
+               f"stores into buffer[{show(i_e)}], head <- {show(step)}; required: buffer[head] = element, then head + 1")
+        ctx.ob("R18.8", f"{key}|answers-true-after-storing", ok_ans, site, "every answer after the store is `true`")
+    else:
+        ok_step = step[0] == "bin" and step[1].rstrip("!~") == "Sub" and is_head(step[2]) and strip_casts(step[3]) == ("const", 1)
+        if is_head(i_e): ok_idx = body.dominates(hb, ib) and hb != ib                      # decrement first, then read buffer[head]
+        elif i_e[0] == "bin" and i_e[1].rstrip("!~") == "Sub" and is_head(i_e[2]) and strip_casts(i_e[3]) == ("const", 1): ok_idx = body.dominates(ib, hb) and hb != ib   # read buffer[head-1], then decrement
+        else: ok_idx = False
+        ctx.ob("R18.8", f"{key}|hands-out-the-top-element", ok_step and ok_idx, body.loc(ib), f"reads buffer[{show(i_e)}], head <- {show(step)}; required: the element at head - 1 (the last one pushed), head - 1")
+        somes = [(b, st) for b in sorted(body.reachable) for st in body.stmts(b) if st[0] == "A" and not st[1]["p"] and st[1]["l"] == 0 and st[2][0] == "Agg" and st[2][1][0] == "Adt" and st[2][1][2] == "Some"]
+        ok_pay = bool(somes) and all(any(isinstance(x, tuple) and ((x[:1] == ("call",) and len(x) > 3 and x[3] == ib) or (x[0] == "mem" and "buffer" in x[1])) for x in _walk_e(dg.expr(st[2][2][0]))) for (_, st) in somes)
+        ctx.ob("R18.8", f"{key}|answers-some-of-that-element", ok_pay and returns_const(body, ib, "variant", 1), site, "the answer after the read is Some(the element read)")
+
+
+def rv_is_param(body, dg, rv, n):
+    from dag import strip_casts
+    if rv[0] != "Use": return False
+    e = strip_casts(dg.expr(rv[1]))
+    return e[:2] == ("param", n)
+
+
+def _walk_e(e, depth=0):
+    if not isinstance(e, tuple) or depth > 12: return
+    yield e
+    for x in e:
+        if isinstance(x, tuple): yield from _walk_e(x, depth + 1)
+
 
 def returns_const(body, start, kind, val):
     """every answer on the paths through `start` is that constant (flag-aware: the answer may be parked in a local until after the unlock)"""
